@@ -391,6 +391,29 @@ def _named_fields(view, bs, entry, disps, fs_locals, self_path, region):
                                "sites": [s for s in bs.sites if s.bb in mreg],
                                "user_calls": [u for u in bs.user_calls if u["bb"] in mreg],
                                "in_loop": bb in nf.loop_body})
+    # ... the same test written on the variant itself: `if let FieldState::Missing = field { .. }` / `match field { Missing => .. }`
+    # (outside the member loop, on a field-state local)
+    for bb in sorted(reg):
+        if bb in nf.loop_body:
+            continue
+        info = view.switch_info(bb)
+        if not info or info["kind"] != "discr" or info["place"] is None or info["place"]["p"]:
+            continue
+        fname = None
+        for name, l in nf.F.items():
+            if info["place"]["l"] == l:
+                fname = name
+        if fname is None:
+            continue
+        true_t = view.variant_target(info, "Missing")
+        others = [tg for lb, tg in info["edges"] if tg != true_t and tg not in view.unreach]
+        if true_t is None or not others or any(m["field"] == fname and not m["in_loop"] for m in nf.missing):
+            continue
+        mreg = dominated(view, true_t)
+        nf.missing.append({"field": fname, "bb": bb, "region": mreg, "true_t": true_t,
+                           "sites": [s for s in bs.sites if s.bb in mreg],
+                           "user_calls": [u for u in bs.user_calls if u["bb"] in mreg],
+                           "in_loop": False})
     # accumulator + final test + build
     accs = bs.accumulators()
     cand = [a for a in accs if any(s.bb in reg for s in accs[a])]
